@@ -7,9 +7,12 @@ EXTENDS Parser, Json, IOUtils
 Rec == ndJsonDeserialize(IOEnv.TRACE)
 VARIABLE l
 Blank(cs) == LET t == Trim(cs) IN t = <<>> \/ t[1] = HASH
+Bang(cs) == LET t == Trim(cs) IN t # <<>> /\ t[1] = BANG
 ROk(r) == LET ls == Lines(r.text) IN
    CASE r.parsed.t = "ok" -> /\ Len(r.parsed.ins) = Len(ls) /\ r.linenos = [i \in 1..Len(ls) |-> i]
                              /\ \A i \in 1..Len(ls) : Blank(ls[i]) => r.parsed.ins[i] = [t |-> "empty"]
+                             \* a line whose first non-blank character is '!' is a pre-processor directive and nothing else
+                             /\ \A i \in 1..Len(ls) : Bang(ls[i]) <=> r.parsed.ins[i].t = "pre"
      [] r.parsed.t = "err" -> r.parsed.line \in 1..Len(ls) /\ ~Blank(ls[r.parsed.line])
      [] OTHER -> FALSE
 Check(k, r) ==
